@@ -380,6 +380,19 @@ pub struct Script {
     pub rx1: Vec<Vec<u8>>,
     pub between: Vec<Vec<u8>>,
     pub rx2: Vec<Vec<u8>>,
+    /// nb front-end only: calls an application makes at the wrong moment, (driver loop step, call).
+    pub intrude: Vec<(u32, Intrusion)>,
+}
+
+/// An event handed to the nb state machine in the middle of a transaction.
+#[derive(Clone, Debug)]
+pub enum Intrusion {
+    Send,
+    SendConfirmed,
+    Join,
+    /// a radio event with a frame nobody can accept (random bytes)
+    StrayRx(Vec<u8>),
+    StrayNothing,
 }
 
 impl Script {
@@ -503,6 +516,23 @@ impl<const PW: u8, const G: i8> Dev<PW, G> {
             }
         };
         Dev { front, reg, log, dev, creds, window_notes: vec![] }
+    }
+
+    /// nb front-end: events that arrive while no transaction is running (a timer that fires late,
+    /// a radio interrupt nobody waits for). Returns what the device answered; panics are trapped.
+    pub fn poke_idle(&mut self, garbage: Vec<u8>) -> Result<Vec<String>, Trapped> {
+        let AnyDev::Nb(d) = &mut self.dev else { return Ok(vec![]) };
+        trap(|| {
+            use nb_device::Event;
+            let mut out = vec![];
+            for ev in [Event::TimeoutFired, Event::RadioEvent(nb_device::radio::Event::Phy(NbPhyEvent::RxDone(garbage.clone()))), Event::RadioEvent(nb_device::radio::Event::Phy(NbPhyEvent::TxDone(0)))] {
+                out.push(match d.handle_event(ev) {
+                    Ok(r) => format!("Ok({:?})", r),
+                    Err(e) => format!("Err({})", render_nb_err(e)),
+                });
+            }
+            out
+        })
     }
 
     pub fn set_rng_next(&mut self, v: u32) {
@@ -751,6 +781,32 @@ fn nb_transact<const PW: u8, const G: i8>(d: &mut NbDev<PW, G>, jm: JoinMode, ac
         steps += 1;
         if steps > 64 {
             return Resp::Error("nb-driver: transaction did not finish in 64 steps".into());
+        }
+        // (only while the transaction is still running; stray radio events not while the radio
+        // transmits: what a radio answers then is the board's business, not the stack's)
+        let running = matches!(resp, Response::TimeoutRequest(_) | Response::UplinkSending(_) | Response::JoinRequestSending);
+        let sending = matches!(resp, Response::UplinkSending(_) | Response::JoinRequestSending);
+        for (at, k) in script.intrude.iter() {
+            if *at != steps || !running || (sending && matches!(k, Intrusion::StrayRx(_) | Intrusion::StrayNothing)) {
+                continue;
+            }
+            let r = match k {
+                Intrusion::Send => d.send(&[0x99, 0x98], 7, false),
+                Intrusion::SendConfirmed => d.send(&[0x97], 8, true),
+                Intrusion::Join => d.join(jm),
+                Intrusion::StrayRx(b) => d.handle_event(Event::RadioEvent(nb_device::radio::Event::Phy(NbPhyEvent::RxDone(b.clone())))),
+                Intrusion::StrayNothing => d.handle_event(Event::RadioEvent(nb_device::radio::Event::Phy(NbPhyEvent::Nothing))),
+            };
+            match r {
+                Ok(Response::NoUpdate) => notes.push(format!("intr@{}:NoUpdate", steps)),
+                Err(e) => notes.push(format!("intr@{}:refused:{}", steps, render_nb_err(e))),
+                Ok(other) => {
+                    // the call was taken in the middle of the transaction: what follows is no
+                    // longer the transaction this driver was running
+                    notes.push(format!("intr@{}:took-effect:{:?}", steps, other));
+                    return Resp::Error(format!("nb-driver: a call made during a transaction took effect: {:?}", other));
+                }
+            }
         }
         match resp {
             Response::TimeoutRequest(ms) => {
